@@ -365,7 +365,9 @@ impl<F: Write + Seek> MiniAllocator<F> {
     ) -> io::Result<()> {
         let mut mini_sector = start_mini_sector;
         while mini_sector != consts::END_OF_CHAIN {
-            let next = self.minifat[mini_sector as usize];
+            // The start of the chain comes from a directory entry that nothing
+            // has validated, so use the checked lookup rather than indexing.
+            let next = self.next_mini_sector(mini_sector)?;
             self.free_mini_sector(mini_sector)?;
             mini_sector = next;
         }
@@ -378,7 +380,7 @@ impl<F: Write + Seek> MiniAllocator<F> {
         &mut self,
         mini_sector: u32,
     ) -> io::Result<()> {
-        let next = self.minifat[mini_sector as usize];
+        let next = self.next_mini_sector(mini_sector)?;
         self.set_minifat(mini_sector, consts::END_OF_CHAIN)?;
         self.free_mini_chain(next)?;
         Ok(())
